@@ -393,3 +393,19 @@ pub fn run(tier: Tier) -> i32 {
     rep.assumptions = vec!["same trusted base as C01; the external backend is the harness's stand-in program".into()];
     rep.finish()
 }
+
+
+/// replay helper: re-run the matrix and the order exploration on one graph
+pub fn replay_graph(g: &Graph, pres: Presentation, max_len: usize, rich: bool) -> Vec<(String, String)> {
+    let mut acc = Acc::default();
+    {
+        let mut m = Matrix { name: "replay", g, pres, acc: &mut acc };
+        with_presentation(g, pres, &mut m);
+    }
+    {
+        let ra = RefAnswers::new(g);
+        let mut o = Order { name: "replay", g, pres, ra: &ra, max_len, rich_menu: rich, acc: &mut acc };
+        with_presentation(g, pres, &mut o);
+    }
+    acc.violations.into_iter().map(|(k, (_, v))| (k, v.message)).collect()
+}
